@@ -41,7 +41,7 @@ func (G *gen) census() error {
 	if dump := os.Getenv("C12_CENSUS_DUMP"); dump != "" { // maintenance aid: current rows for derefs_classify.py
 		var sb strings.Builder
 		for _, row := range cs.Rows {
-			fmt.Fprintf(&sb, "%s\t%s\t%s\t%d\t%d\n", row.Fn, row.Field, row.File, row.Unguarded, row.Guarded)
+			fmt.Fprintf(&sb, "%s\t%s\t%s\t%s\t%d\t%d\n", row.Fn, row.Field, row.Kind, row.File, row.Unguarded, row.Guarded)
 		}
 		os.WriteFile(dump, []byte(sb.String()), 0644)
 	}
@@ -60,7 +60,7 @@ func (G *gen) census() error {
 		} else if row.Unguarded == 0 {
 			cls = "nil-checked" // every dereference of the pair is dominated by a nil test: safe by construction
 		}
-		G.c.Line(fmt.Sprintf("site %s %s %d %d %s", fn, row.Field, row.Unguarded, want, cls), "ok")
+		G.c.Line(fmt.Sprintf("site %s %s %s %d %d %s", fn, row.Field, row.Kind, row.Unguarded, want, cls), "ok")
 		G.c.Hit("census:" + cls)
 		if row.MovedFrom != "" {
 			G.c.Hit("census:moved-within-file")
